@@ -425,6 +425,32 @@ def C_lf_term(C, t, env):
 def counter_helper_ok(f, block):
     """increment helper: single loop, constant trip count == block, single exit on the induction variable."""
     loops = f.loops()
+    if not loops:
+        # straight-line form (a constant-trip loop is unrolled by the specialiser): one byte store per counter byte
+        from ..mem import AddrMap
+        am = AddrMap(f)
+        offs = []
+        for i in f.all_insts():
+            if i["op"] != "store":
+                continue
+            a = am.of(i["ops"][1])
+            if a is None or a.root != ("arg", 0) or len(a.segs) != 1:
+                return False, "store outside the counter"
+            seg = a.segs[0]
+            if seg.off is not None:
+                offs.append((seg.off, i["size"]))
+            elif seg.el and seg.el[0] == "argoff":
+                offs.append((seg.el[3], i["size"]))
+            else:
+                return False, "store at an unrecognised position of the counter"
+        if any(sz != 1 for (o, sz) in offs):
+            return False, "stores wider than one byte"
+        pos = sorted(o for (o, sz) in offs)
+        if len(set(pos)) != len(pos):
+            return False, "a counter byte is stored twice"
+        if len(pos) != block:
+            return False, "visits %d bytes, block is %d" % (len(pos), block)
+        return True, "%d byte positions stepped once each (straight-line carry chain)" % len(pos)
     if len(loops) != 1:
         return False, "%d loops" % len(loops)
     header, body = next(iter(loops.items()))
